@@ -166,3 +166,68 @@ Fixpoint seq_tokens (c : cfg) (ids : list bytes) (es : list (tree * nat)) : list
 Definition same_set (a b : list bytes) : bool :=
   forallb (fun x => in_list x b) a && forallb (fun x => in_list x a) b.
 
+
+(* ---- XML name space scoping of attribute prefixes, stated on trees ----
+   The RawToken view of a marshaled value is a tree whose attribute names
+   carry prefixes and whose prefix declarations are attributes xmlns:p="uri".
+   What such a tree MEANS (Namespaces in XML): an attribute prefix denotes the
+   name space of the nearest declaration of that prefix on the element itself
+   or an enclosing element; declarations of an element are in scope for that
+   element and its descendants only - not for its siblings or what follows;
+   xml: is the XML name space; unprefixed attributes are in no name space; the
+   declarations themselves are not attributes of the element. [scoped_tree]
+   says this by structural recursion with an environment passed downwards,
+   without depths, stacks or popping. *)
+Definition env := list (bytes * bytes).
+
+Fixpoint lookup_env (e : env) (p : bytes) : option bytes :=
+  match e with
+  | [] => None
+  | (q, u) :: r => if bytes_eqb p q then Some u else lookup_env r p
+  end.
+
+Definition decls_env (a : list attr) : env :=
+  flat_map (fun x => if bytes_eqb (nspace (aname x)) s_xmlns then [(nlocal (aname x), aval x)] else []) a.
+
+Definition scoped_attr (e : env) (x : attr) : list attr :=
+  let sp := nspace (aname x) in
+  if is_empty sp then [x]
+  else if bytes_eqb sp s_xmlns then []
+  else if bytes_eqb sp s_xml then [mkattr (mkname so_ns_xml (nlocal (aname x))) (aval x)]
+  else match lookup_env e sp with
+       | Some u => [mkattr (mkname u (nlocal (aname x))) (aval x)]
+       | None => [x]
+       end.
+
+Fixpoint scoped_tree (e : env) (t : tree) : tree :=
+  match t with
+  | Elem n a kids =>
+      let e' := rev (decls_env a) ++ e in
+      Elem n (flat_map (scoped_attr e') a) (map (scoped_tree e') kids)
+  | _ => t
+  end.
+
+(* The full meaning of a raw tree also resolves prefixed ELEMENT names. *)
+Definition meaning_name (e : env) (n : name) : name :=
+  if is_empty (nspace n) then n
+  else match lookup_env e (nspace n) with
+       | Some u => mkname u (nlocal n)
+       | None => n
+       end.
+
+Fixpoint meaning_tree (e : env) (t : tree) : tree :=
+  match t with
+  | Elem n a kids =>
+      let e' := rev (decls_env a) ++ e in
+      Elem (meaning_name e' n) (flat_map (scoped_attr e') a) (map (meaning_tree e') kids)
+  | _ => t
+  end.
+
+(* no element name carries a prefix (all encoding/xml writes by itself; text
+   copied from an ",innerxml" field may differ) *)
+Fixpoint unprefixed_elems (t : tree) : Prop :=
+  match t with
+  | Elem n _ kids => nspace n = [] /\
+      (fix all (ks : list tree) : Prop := match ks with [] => True | k :: r => unprefixed_elems k /\ all r end) kids
+  | _ => True
+  end.
